@@ -129,4 +129,79 @@ U_NF = Unit(P + '/Mininec.nf_helper', ['Mininec.nf_helper'], t_nf_helper, SCHEMA
                       Canary('ground-sign-on-the-wrong-component', 'Mininec.nf_helper', _GroundSignAll, [P + '/Mininec.nf_helper/']),
                       Canary('both-halves-from-the-upper-half-segment', 'Mininec.nf_helper', _WrongDs, [P + '/Mininec.nf_helper/component'])])
 
-UNITS = [U_NF]
+
+
+# ---------------------------------------------------------------- which pulses enter the image pass
+def t_image_mask(eng):
+    """slice of compute_near_field: the first two statements of the loop over image_iter() that set `cond`.
+    nf_helper's contract above makes a grounded pulse carry its image half itself (gnd_sgn on the z component), so the
+    image pass (k = -1) must take exactly the pulses with neither end grounded, the direct pass (k = 1) all of them:
+    every half and every image half is counted once."""
+    n = P + '/compute_near_field[image pass mask]/'
+    Q = 'Mininec.compute_near_field'
+    f = eng.get_fnode(Q)
+    loop = None
+    for x in ast.walk(f):
+        if isinstance(x, ast.For) and 'image_iter' in ast.unparse(x.iter):
+            loop = x
+    if loop is None:
+        from pyvc.source import Unresolved
+        raise Unresolved('loop over image_iter in compute_near_field')
+    stmts = []
+    for st in loop.body:
+        names = {t.id for t in ast.walk(st) if isinstance(t, ast.Name) and isinstance(t.ctx, ast.Store)}
+        if names and names <= {'cond'}:
+            stmts.append(st)
+        else:
+            break
+    eng.oblige(n + 'mask-statements-found', len(stmts) >= 1)
+    later = [st for st in loop.body[len(stmts):] for t in ast.walk(st)
+             if isinstance(t, ast.Name) and t.id == 'cond' and isinstance(t.ctx, ast.Store)]
+    eng.oblige(n + 'mask-not-reassigned-later-in-the-pass', not later)
+    # the mask is what selects the contributions: every accumulation of the pass is taken through `[cond]`
+    accs = [st for st in loop.body if isinstance(st, ast.AugAssign)]
+    unmasked = [ast.unparse(st)[:50] for st in accs
+                if not any(isinstance(t, ast.Subscript) and isinstance(t.slice, ast.Name) and t.slice.id == 'cond'
+                           for t in ast.walk(st.value))]
+    eng.oblige(n + 'pass-accumulates-E-and-H-contributions', len(accs) >= 2, detail=str(len(accs)))
+    eng.oblige(n + 'every-accumulation-of-the-pass-is-masked', not unmasked, detail=str(unmasked))
+    g = [[fresh_bool('g%d%d' % (i, j)) for j in range(2)] for i in range(N)]
+    m = SObj('Mininec', label='m')
+    pc = SObj('Pulse_Container', label='pulses')
+    m.fields['pulses'] = pc
+    pc.fields['ground'] = NDArr(g)
+    gs = [[ite(g[i][j], 0, 1) for j in range(2)] for i in range(N)]
+    pc.fields['gnd_sgn'] = NDArr([[r_sub(1, 0) if False else gs[i][j] for j in range(2)] for i in range(N)])
+    k = 1 if eng.choose(2) == 0 else -1
+    env = {'self': m, 'k': k, 'pxl': N}
+    eng.frames.append({'fref': eng.fref(Q), 'env': env, 'qual': Q, 'node': f})
+    try:
+        eng.exec_block(stmts, env)
+    finally:
+        eng.frames.pop()
+    cond = env['cond']
+    eng.cover('image-mask-%d' % k)
+    ok = isinstance(cond, NDArr) and cond.shape == (N,)
+    eng.oblige(n + 'mask-has-one-entry-per-pulse', ok)
+    if not ok:
+        return
+    for i in range(N):
+        want = True if k > 0 else b_and(b_not(g[i][0]), b_not(g[i][1]))
+        eng.oblige(n + ('direct-pass-takes-every-pulse' if k > 0 else 'image-pass-takes-exactly-the-pulses-with-no-grounded-end'),
+                   bterm(eng.truth(cond.data[i])) == bterm(want))
+
+
+class _FirstEndOnly(ast.NodeTransformer):
+    def visit_Assign(self, node):
+        if ast.unparse(node.targets[0]) == 'cond' and 'logical_and' in ast.unparse(node.value):
+            node.value = ast.parse('np.logical_not (self.pulses.ground.T [0])').body[0].value
+        return node
+
+
+U_MASK = Unit(P + '/compute_near_field-image-mask', ['Mininec.compute_near_field'], t_image_mask, SCHEMA,
+              slices={'Mininec.compute_near_field': 'the leading statements of the loop over image_iter() that assign `cond`; dropped: everything else'},
+              notes='bounded(shape): 2 pulses; grounding flags symbolic',
+              canaries=[Canary('image-pass-skips-only-first-end-grounded', 'Mininec.compute_near_field', _FirstEndOnly,
+                               [P + '/compute_near_field[image pass mask]/image-pass'])])
+
+UNITS = [U_NF, U_MASK]
